@@ -21,16 +21,37 @@ struct Obs : tbb::task_scheduler_observer {
     int arena_id;
     std::map<int, int> depth;   // fiber -> entries - exits
     int entries = 0, exits = 0;
+    std::map<int, int> inside;  // fiber -> current_thread_index() between its entry and its exit callback (outermost level)
     Obs(tbb::task_arena& a, int id) : tbb::task_scheduler_observer(a), arena_id(id) {}
     void on_scheduler_entry(bool is_worker) override {
         int f = sim::self();
         SIM_CHECK(is_worker == !sim::is_scenario_fiber(f), "oracle:observer", "on_scheduler_entry(is_worker=%d) on fiber %d which is %sa worker", (int)is_worker, f, sim::is_scenario_fiber(f) ? "not " : "");
-        depth[f]++; entries++;
+        if (depth[f]++ == 0) {
+            // from the entry callback to the end of the exit callback the thread is inside the arena: it owns a slot
+            int idx = tbb::this_task_arena::current_thread_index();
+            const ArenaInfo& ai = W->ar[(size_t)arena_id];
+            for (auto& kv : inside) SIM_CHECK(kv.second != idx, "oracle:slot-index", "observer of arena %d: fiber %d enters with current_thread_index %d while fiber %d is still between its entry and exit callbacks with the same index", arena_id, f, idx, kv.first);
+            inside[f] = idx;
+            int bound = ai.maxc + (ai.maxc == 1 ? 1 : 0);
+            SIM_CHECK((int)inside.size() <= bound, "oracle:arena-concurrency", "observer of arena %d: %zu threads are between their entry and exit callbacks at once; max_concurrency=%d", arena_id, inside.size(), ai.maxc);
+            for (int i = 0; i < 2; ++i) sim::upoint();
+        }
+        entries++;
     }
     void on_scheduler_exit(bool) override {
         int f = sim::self();
         SIM_CHECK(depth[f] > 0, "oracle:observer", "on_scheduler_exit on fiber %d (arena %d) without a matching on_scheduler_entry on that fiber", f, arena_id);
-        depth[f]--; exits++;
+        if (--depth[f] == 0) {
+            for (int i = 0; i < 3; ++i) sim::upoint();      // user code of some duration inside the exit callback
+            int idx = tbb::this_task_arena::current_thread_index();
+            auto it = inside.find(f);
+            if (it != inside.end()) {
+                SIM_CHECK(it->second == idx, "oracle:slot-index", "observer of arena %d: current_thread_index() of fiber %d is %d in its exit callback, it was %d at entry", arena_id, f, idx, it->second);
+                for (auto& kv : inside) if (kv.first != f) SIM_CHECK(kv.second != idx, "oracle:slot-index", "observer of arena %d: fibers %d and %d are inside with the same current_thread_index %d (one of them in its exit callback)", arena_id, f, kv.first, idx);
+                inside.erase(it);
+            }
+        }
+        exits++;
     }
 };
 
